@@ -381,7 +381,7 @@ Definition push_tail (w : world) (n : nat) (now : Z) (c : client) (p : params) (
       let jkt := if cf_dpop_enabled cfg then
                    match b_dpop b with Some pf => jwk_thumb (dp_jwk pf) | None => p_dpop_jkt p end
                  else 0%N in
-      let s := (new_session n c p) <| a_par := mint n KParUri |>
+      let s := (new_session n c (par_stored_params p)) <| a_par := mint n KParUri |>
                  <| a_expires := (now + cf_par_lifetime cfg)%Z |>
                  <| a_jkt := jkt |> <| a_x5t := set_pop_x5t cfg b |> in
       save_a s (fun rs => match rs with RFail => Ret (OErr EInternalError) | _ => Ret (OPar (a_par s)) end)
